@@ -121,7 +121,20 @@ func (a *Attestations) SetGitHubPullRequestApprovalAttestation(repo gitstore.Sto
 // observed the approval.
 func (a *Attestations) GetGitHubPullRequestApprovalAttestationFor(repo gitstore.Storer, appName, refName, fromRevisionID, targetTreeID string) (*sslibdsse.Envelope, error) {
 	indexPath := GitHubPullRequestApprovalAttestationPath(refName, fromRevisionID, targetTreeID)
-	return a.GetGitHubPullRequestApprovalAttestationForIndexPath(repo, appName, indexPath)
+	env, err := a.GetGitHubPullRequestApprovalAttestationForIndexPath(repo, appName, indexPath)
+	if err != nil {
+		return nil, err
+	}
+
+	// The attestation is looked up by its path in the attestations tree, which
+	// is not covered by the app's signature. Ensure the signed statement is for
+	// the change we were asked about, as we do for reference authorizations.
+	// TODO: this will be updated to support validating different versions
+	if err := githubv01.ValidatePullRequestApproval(env, refName, fromRevisionID, targetTreeID); err != nil {
+		return nil, errors.Join(github.ErrInvalidPullRequestApprovalAttestation, err)
+	}
+
+	return env, nil
 }
 
 // GetGitHubPullRequestApprovalAttestationForReviewID returns the requested
